@@ -9,7 +9,7 @@ def ns(k):
 
 
 def gen(ctx, family, n, n2, nperm, **kw):
-    c = dict(MaxN=7, Whats=ALLW, MaxExtra=2, Ops='{"list"}', Ns=n, MaxAnom=1, Ns2=n2, NsPerm=nperm,
+    c = dict(MaxN=7, Whats=ALLW, MaxExtra=2, MaxOver=0, Ops='{"list"}', Ns=n, MaxAnom=1, Ns2=n2, NsPerm=nperm,
              Family='"%s"' % family, Form='"list"')
     return ctx.behaviours("cert", "Gen_QuorumCert", "Gen_QuorumCert.cfg", constants=c, timeout=900, **kw)
 
